@@ -174,6 +174,8 @@ structure St where
   sms : List (String × SM) := []
   logs : List (String × LogStore) := []
   snaps : List (Nat × Snapshot) := []
+  /-- `get_current_snapshot` per store: the last snapshot built by it or installed into it -/
+  cur : List (String × Snapshot) := []
 
 def St.sm (s : St) (r : String) : SM := (s.sms.lookup r).getD {}
 def St.setSm (s : St) (r : String) (sm : SM) : St := { s with sms := (r, sm) :: s.sms.filter (·.1 ≠ r) }
@@ -193,7 +195,11 @@ def step (s : St) (line : String) : St × String :=
   let ws := words op
   match ws, res with
   | "new" :: _, _ => ({}, "")
-  | ["store", r, _], none => ((s.setSm r {}).setLog r {}, "")
+  | ["store", r, _], none => ({ (s.setSm r {}).setLog r {} with cur := s.cur.filter (·.1 ≠ r) }, "")
+  | ["cur", r], some impl =>
+    (s, verdict (match s.cur.lookup r with
+      | none => "none"
+      | some sn => s!"id={sn.snapshotId} la={pOLid sn.metaLast} mem={pMem sn.metaMembership}") impl)
   | "apply" :: r :: rest, some impl =>
     match parseEntries rest with
     | none => bad s "entries"
@@ -206,7 +212,7 @@ def step (s : St) (line : String) : St × String :=
     | none => bad s "snap"
     | some k =>
       let sn := buildSnapshot (s.sm r)
-      ({ s with snaps := (k, sn) :: s.snaps.filter (·.1 ≠ k) },
+      ({ s with snaps := (k, sn) :: s.snaps.filter (·.1 ≠ k), cur := (r, sn) :: s.cur.filter (·.1 ≠ r) },
         verdict s!"id={sn.snapshotId} la={pOLid sn.metaLast} mem={pMem sn.metaMembership}" impl)
   | ["taint", k, id, tok], none =>
     match k.toNat?, parseTask tok with
@@ -222,7 +228,7 @@ def step (s : St) (line : String) : St × String :=
     | none => bad s "install"
     | some sn =>
       let sm' := installSnapshot (s.sm r) sn
-      (s.setSm r sm', verdict (pSM sm') impl)
+      ({ s.setSm r sm' with cur := (r, sn) :: s.cur.filter (·.1 ≠ r) }, verdict (pSM sm') impl)
   | ["same", a, b], some impl =>
     if impl != "eq" then (s, s!"JUDGE stores {a} and {b} hold different replicated states for the same log")
     else (s, verdict (if s.sm a == s.sm b then "eq" else "ne") impl)
